@@ -12,6 +12,7 @@ import (
 	"errors"
 	"fmt"
 	"runtime"
+	"runtime/metrics"
 	"sync/atomic"
 	"testing"
 	"time"
@@ -60,11 +61,25 @@ func newDecoder(stream []byte, cfg refframe.Config) *Decoder {
 
 var memBefore, memAfter runtime.MemStats
 
+// heapAllocs is the cheap (no stop-the-world) twin of MemStats.TotalAlloc; it may lag by the spans sitting in
+// the per-P caches, so it is only used as a pre-filter: a case over budget is measured again with
+// runtime.ReadMemStats and only that precise number can become a violation.
+var allocSample = []metrics.Sample{{Name: "/gc/heap/allocs:bytes"}}
+
+func heapAllocs() uint64 {
+	metrics.Read(allocSample)
+	return allocSample[0].Value.Uint64()
+}
+
 // runFrameLayer drives Decoder.readPayload until it errors.
-func runFrameLayer(stream []byte, cfg refframe.Config, measure bool) (o gateOut) {
+func runFrameLayer(stream []byte, cfg refframe.Config, measure int) (o gateOut) {
 	d := newDecoder(stream, cfg)
-	if measure {
+	var before uint64
+	switch measure {
+	case measurePrecise:
 		runtime.ReadMemStats(&memBefore)
+	case measureCheap:
+		before = heapAllocs()
 	}
 	o.panicked, o.panicVal = vrt.Catch(func() {
 		for o.steps = 0; o.steps <= len(stream)+4; o.steps++ {
@@ -81,12 +96,21 @@ func runFrameLayer(stream []byte, cfg refframe.Config, measure bool) (o gateOut)
 		}
 		o.err = errors.New("harness: decoder yielded more frames than the stream has bytes")
 	})
-	if measure {
+	switch measure {
+	case measurePrecise:
 		runtime.ReadMemStats(&memAfter)
 		o.alloc = memAfter.TotalAlloc - memBefore.TotalAlloc
+	case measureCheap:
+		o.alloc = heapAllocs() - before
 	}
 	return
 }
+
+const (
+	measureNone = iota
+	measureCheap
+	measurePrecise
+)
 
 // runDecode drives the public Decoder.Decode until it errors.
 func runDecode(stream []byte, cfg refframe.Config) (o gateOut) {
@@ -206,13 +230,18 @@ func (c *checker) evalCase(cs *caseSpec) {
 		r.Nontrivial(1)
 	}
 
-	a := runFrameLayer(stream, cfg, true)
+	a := runFrameLayer(stream, cfg, measureCheap)
 	c.compare("readPayload", cs, stream, &ref, &a, len(ref.Payloads))
 	if !a.panicked {
 		budget := uint64(ref.Budget) + allocSlack
 		if ref.End == refframe.EndUndefined {
 			// unknown how far a decoder may go on: one more admissible frame + inflation at most
 			budget += refframe.MaxFrame + uint64(cfg.Cap())
+		}
+		if a.alloc > budget {
+			r.Class("alloc:precise-remeasure")
+			a2 := runFrameLayer(stream, cfg, measurePrecise)
+			a.alloc = a2.alloc
 		}
 		if a.alloc > budget {
 			r.Violation("alloc-exceeds-budget/"+ref.End.String()+"/"+ref.Tag,
@@ -294,7 +323,7 @@ func (c *checker) guarded(work func(), replay bool) {
 				go func() {
 					defer close(d2)
 					stream := cs.build()
-					runFrameLayer(stream, cs.Cfg.ref(), false)
+					runFrameLayer(stream, cs.Cfg.ref(), measureNone)
 					runDecode(stream, cs.Cfg.ref())
 				}()
 				select {
